@@ -147,6 +147,8 @@ def gen_class(rng, name, refs, feats, leaf=False, root=False):
             kinds += ["anytype"]
         if "compound" in feats and refs:
             kinds += ["compound"]
+        if "union" in feats and refs:
+            kinds += ["union"] * 3
         k = rng.choice(kinds)
         n = fname()
         md = {}
@@ -230,6 +232,26 @@ def gen_class(rng, name, refs, feats, leaf=False, root=False):
                 flds.append({"name": n, "type": {"list": {"cls": ref}}, "metadata": md, "default": {"factory": "list"}})
             else:
                 flds.append({"name": n, "type": {"cls": ref}, "metadata": md})
+        elif k == "union":
+            # a field whose type is a union with at least one class (handled by UnionNode):
+            # class | class, class | primitive(s)
+            md["type"] = "Element"
+            members = [{"cls": rng.choice(refs)}]
+            for _ in range(rng.randint(1, 2)):
+                m = rng.choice([{"cls": rng.choice(refs)}, "int", "str", "bool", "int", {"cls": rng.choice(refs)}])
+                if m not in members:
+                    members.append(m)
+            if len(members) < 2:
+                members.append(rng.choice(["int", "str"]))
+            rng.shuffle(members)
+            ut = {"union": members}
+            r = rng.random()
+            if r < 0.45:
+                flds.append({"name": n, "type": {"opt": ut}, "metadata": md, "default": {"value": None}})
+            elif r < 0.8 and "list" in feats:
+                flds.append({"name": n, "type": {"list": ut}, "metadata": md, "default": {"factory": "list"}})
+            else:
+                flds.append({"name": n, "type": ut, "metadata": md})
         elif k == "wildcard":
             has_wild = True
             md = {"type": "Wildcard", "namespace": rng.choice(["##any", "##other", "##any", "##local", "##targetNamespace"])}
@@ -427,6 +449,11 @@ def gen_field_value(rng, uni, f, depth):
     is_opt = isinstance(t, dict) and "opt" in t
 
     def one():
+        if isinstance(bt, dict) and "union" in bt:
+            m = rng.choice(bt["union"])
+            if isinstance(m, dict) and "cls" in m:
+                return gen_instance(rng, uni, m["cls"], depth + 1)
+            return rprim(rng, m)
         if bt == "object":
             r = rng.random()
             if r < 0.5:
